@@ -55,6 +55,9 @@ def cases(draw, strategy=None):
 def execute(ctx, case):
   run = writersim.run_case(case)
   if run.aborted == 'step-limit':
+    if run.recv_exc is not None:
+      ctx.fail('C04:stop-raised', 'the stop sequence raised %r and the writer never stopped' % (run.recv_exc,), case)
+      return
     ctx.count('inconclusive: step limit')
     return
   acc = c03.judge(ctx, case, run, prefix='C04')
